@@ -11,7 +11,7 @@ package reconciledloader
 //@ pred good(it remoteItem) := len(it.block) == 0 || isSumOf(it.link, it.block)
 //@ pred allGood() := forall n *remotedLinkedItem :: n != nil ==> good(n.remoteItem)
 //@ -- pool hygiene: an item handed to the pool, or kept only for a retry, holds no block bytes
-//@ pred clean(x *remotedLinkedItem) := x != nil && isalloc(x) && len(x.block) == 0
+//@ pred clean(x *remotedLinkedItem) := x != nil && len(x.block) == 0
 //@ pred qinv(rq *remoteQueue) := rq.lastConsumed != nil ==> clean(rq.lastConsumed)
 
 //@ -- sync.Pool, specialised to linkedRemoteItemPool (the only pool of this package): what comes out is what New made or
@@ -59,7 +59,7 @@ package reconciledloader
 //@   ensures old(rq.lastConsumed) == nil ==> rq.head == old(rq.head)
 
 //@ func remoteQueue.consume
-//@   requires rq.head != nil && isalloc(rq.head) && allGood() && qinv(rq)
+//@   requires rq.head != nil && allGood() && qinv(rq)
 //@   modifies rq.head, rq.lastConsumed, rq.dataSize, remotedLinkedItem.remoteItem
 //@   ensures allGood() && qinv(rq)
 //@   ensures rq.lastConsumed == old(rq.head) && rq.head == old(rq.head.next)
@@ -67,17 +67,16 @@ package reconciledloader
 
 //@ func remoteQueue.clear
 //@   requires allGood() && qinv(rq)
-//@   requires forall n *remotedLinkedItem :: n != nil ==> isalloc(n)
 //@   modifies rq.head, rq.lastConsumed, rq.dataSize, remotedLinkedItem.remoteItem
 //@   loop 1 invariant allGood() && qinv(rq)
 //@   ensures allGood() && rq.head == nil && rq.lastConsumed == nil
 
 //@ func remoteQueue.queue
-//@   requires forall j int :: 0 <= j && j < len(newItems) ==> newItems[j] != nil && isalloc(newItems[j])
-//@   requires rq.head != nil ==> rq.tail != nil && isalloc(rq.head)
+//@   requires forall j int :: 0 <= j && j < len(newItems) ==> newItems[j] != nil
+//@   requires rq.head != nil ==> rq.tail != nil
 //@   modifies rq.head, rq.tail, rq.dataSize, remotedLinkedItem.next
-//@   loop 1 invariant (rq.head != nil ==> rq.tail != nil && isalloc(rq.head)) && (old(rq.tail) != nil ==> rq.tail != nil)
-//@   ensures rq.head != nil ==> rq.tail != nil && isalloc(rq.head)
+//@   loop 1 invariant (rq.head != nil ==> rq.tail != nil) && (old(rq.tail) != nil ==> rq.tail != nil)
+//@   ensures rq.head != nil ==> rq.tail != nil
 //@   ensures old(rq.tail) != nil ==> rq.tail != nil
 
 //@ inlineobj ReconciledLoader.remoteQueue ReconciledLoader.pathTracker
@@ -102,7 +101,8 @@ package reconciledloader
 //@ -- C01: whatever metadata and blocks a response carries, every item queued for the traversal pairs a link with
 //@ -- bytes that hash to that link, or with no bytes at all
 //@ func ReconciledLoader.IngestResponse
-//@   requires linv(rl) && blocksOK(blocks) && md != nil
+//@   objinv linv(rl)
+//@   requires blocksOK(blocks) && md != nil
 //@   iterloop LinkMetadata.Iterate invariant linv(rl) && (forall j int :: 0 <= j && j < len(items) ==> items[j] != nil && isalloc(items[j]))
 //@   modifies alloc, remotedLinkedItem.next, remotedLinkedItem.remoteItem, remoteQueue.head, remoteQueue.tail, remoteQueue.dataSize, allmaps("map[cid.Cid]struct{}")
 //@   ensures linv(rl)
@@ -151,7 +151,7 @@ package reconciledloader
 //@ -- SetRemoteOnline, Cleanup - is verified to keep the same invariant)
 //@ pred attemptOK(rl *ReconciledLoader) := rl.mostRecentLoadAttempt.link == nil || isCidLink(rl.mostRecentLoadAttempt.link)
 //@ pred linv(rl *ReconciledLoader) := wf(rl) && allGood() && qinv(rl.remoteQueue) && recOK() && isT(rl.traversalRecord) && attemptOK(rl)
-//@    && (rl.remoteQueue.head != nil ==> rl.remoteQueue.tail != nil && isalloc(rl.remoteQueue.head))
+//@    && (rl.remoteQueue.head != nil ==> rl.remoteQueue.tail != nil)
 //@    && (rl.remoteQueue.lastConsumed != nil ==> rl.remoteQueue.tail != nil)
 //@    && (rl.verifier != nil ==> stackOK(rl.verifier) && atLink(rl.verifier))
 
@@ -197,32 +197,30 @@ package reconciledloader
 //@   ensures result == (lr.link == nil)
 
 //@ func ReconciledLoader.BlockReadOpener
-//@   requires linv(rl) && isCidLink(link)
+//@   objinv linv(rl)
+//@   requires isCidLink(link)
 //@   modifies alloc, vfail, recNodes, remoteQueue.head, remoteQueue.tail, remoteQueue.dataSize, remoteQueue.lastConsumed, remotedLinkedItem.next, remotedLinkedItem.remoteItem, ReconciledLoader.open, ReconciledLoader.verifier, ReconciledLoader.mostRecentLoadAttempt, traversalrecord.Verifier.stack, pathTracker.lastUnfollowedRemotePath, traversalrecord.TraversalRecord.link, traversalrecord.TraversalRecord.successful, traversalrecord.TraversalRecord.children, traversalrecord.TraversalRecord.childSegments, traversalrecord.traversalLink.segment, traversalrecord.traversalLink.TraversalRecord, allmaps("map[datamodel.PathSegment]int")
-//@   ensures linv(rl)
 //@   ensures result.Err == nil && !result.Local ==> isSumOf(linkCid(link), result.Data)
 //@   ensures vfail != old(vfail) ==> result.Err != nil
 //@   ensures rl.mostRecentLoadAttempt.link == link && rl.mostRecentLoadAttempt.successful == (result.Err == nil)
 
 //@ -- going online starts a replay of everything loaded so far against what the remote will send (C02 / C06)
 //@ func ReconciledLoader.SetRemoteOnline
-//@   requires linv(rl)
+//@   objinv linv(rl)
 //@   modifies alloc, ReconciledLoader.open, ReconciledLoader.verifier, traversalrecord.Verifier.stack, traversalrecord.traversalLink.segment, traversalrecord.traversalLink.TraversalRecord
-//@   ensures linv(rl) && rl.open == online
+//@   ensures rl.open == online
 //@   ensures online && !old(rl.open) ==> rl.verifier != nil && fresh(rl.verifier)
 //@   ensures !(online && !old(rl.open)) ==> rl.verifier == old(rl.verifier)
 
 //@ func ReconciledLoader.Cleanup
-//@   requires linv(rl)
-//@   requires forall n *remotedLinkedItem :: n != nil ==> isalloc(n)
+//@   objinv linv(rl)
 //@   modifies remoteQueue.head, remoteQueue.tail, remoteQueue.lastConsumed, remoteQueue.dataSize, remotedLinkedItem.remoteItem
-//@   ensures linv(rl) && rl.remoteQueue.head == nil && rl.remoteQueue.lastConsumed == nil
+//@   ensures rl.remoteQueue.head == nil && rl.remoteQueue.lastConsumed == nil
 
 //@ -- C06: a retry puts back at most the one item the failed load had consumed and then loads the same link again
 //@ func ReconciledLoader.RetryLastLoad
-//@   requires linv(rl)
+//@   objinv linv(rl)
 //@   modifies alloc, vfail, recNodes, remoteQueue.head, remoteQueue.tail, remoteQueue.dataSize, remoteQueue.lastConsumed, remotedLinkedItem.next, remotedLinkedItem.remoteItem, ReconciledLoader.open, ReconciledLoader.verifier, ReconciledLoader.mostRecentLoadAttempt, traversalrecord.Verifier.stack, pathTracker.lastUnfollowedRemotePath, traversalrecord.TraversalRecord.link, traversalrecord.TraversalRecord.successful, traversalrecord.TraversalRecord.children, traversalrecord.TraversalRecord.childSegments, traversalrecord.traversalLink.segment, traversalrecord.traversalLink.TraversalRecord, allmaps("map[datamodel.PathSegment]int")
-//@   ensures linv(rl)
 //@   ensures old(rl.mostRecentLoadAttempt.link) == nil ==> result.Err != nil
 //@   ensures old(rl.mostRecentLoadAttempt.link) != nil && result.Err == nil && !result.Local ==> isSumOf(linkCid(old(rl.mostRecentLoadAttempt.link)), result.Data)
 //@   ensures vfail != old(vfail) ==> result.Err != nil
